@@ -88,6 +88,15 @@ def determinism(functions, allow=()):
                     names = [t.id for t in n.targets if isinstance(t, ast.Name)]
                     if any(nm.isupper() for nm in names) and isinstance(n.value, (ast.List,)):
                         continue      # constant tables such as MOVE_SINTAX
+                    if isinstance(n.value, ast.Call) and ast.unparse(n.value.func) == 'logging.getLogger':
+                        continue      # a logger: written to, never read back by the cone
+                    used = False      # an object no scanned function mentions cannot carry state between their calls
+                    for mod2, qual2 in functions:
+                        f2 = _fn(mods, mod2, qual2)
+                        if mod2 == modname and f2 is not None and any(isinstance(y, ast.Name) and y.id in names for y in ast.walk(f2)):
+                            used = True
+                    if not used:
+                        continue
                     bad.append(f'{modname}: module-level mutable object {names} (possible cross-call state)')
         return (not bad), ('; '.join(bad) if bad else f'{len(functions)} functions scanned: no hidden inputs or cross-call state')
     return check
@@ -178,7 +187,13 @@ def solver_constants(mods):
             try:
                 digits.append(ast.literal_eval(x.args[1]))
             except Exception:
-                return False, 'digit count passed by PlayerTwo.value_iteration_rewards is not a literal'
+                a1 = x.args[1]
+                consts = mods['tad'].consts          # a module-level constant bound once to a literal is read through
+                bound_once = isinstance(a1, ast.Name) and sum(1 for n in ast.walk(mods['tad'].tree) if isinstance(n, ast.Name) and n.id == a1.id and isinstance(n.ctx, ast.Store)) == 1
+                if bound_once and a1.id in consts and not any(isinstance(n, ast.Global) for n in ast.walk(mods['tad'].tree)):
+                    digits.append(consts[a1.id])
+                else:
+                    return False, 'digit count passed by PlayerTwo.value_iteration_rewards is neither a literal nor a module constant bound once'
     ok = tv == 1e-06 and fl == 6 and digits == [6]
     return ok, f'solve passes threshold={tv!r}; Solver.__init__ derives floor={fl!r}; PlayerTwo.value_iteration_rewards rounds to {digits} digits (the contracts require 1e-06 / 6 / [6])'
 
